@@ -22,5 +22,7 @@ path = os.path.join(os.path.dirname(os.path.dirname(os.path.abspath(__file__))),
 old = json.load(open(path))
 old['functions'] = funcs
 old['private'] = private
+from lsa.resilient import module_digests   # noqa: E402
+old['digests'] = module_digests(repo)
 json.dump(old, open(path, 'w'), indent=1)
 print(len(funcs), 'functions;', len(private), 'private')
